@@ -3467,7 +3467,13 @@ class __implementations__:
 
     @implements(numpy.vdot)
     def vdot(a: IntoArray, b: IntoArray, axes: Optional[Union[int, Sequence[int]]] = None) -> Array:
-        a, b = broadcast_arrays(a, b)
+        a = Array.cast(a)
+        b = Array.cast(b)
+        if a.shape != b.shape:
+            if a.size != b.size:
+                raise ValueError(f'shapes {a.shape} and {b.shape} differ in size')
+            a = numpy.ravel(a)
+            b = numpy.ravel(b)
         return numpy.sum(numpy.conjugate(a) * b, range(a.ndim))
 
     @implements(numpy.dot)
